@@ -1,3 +1,5 @@
+//go:build !vsreal
+
 package vs
 
 import (
